@@ -47,6 +47,7 @@ Section Pres.
     intros [I1 I2] Hstep. step_split Hstep Ea Est.
     all: try discriminate Hstep.
     all: injection Hstep as <-.
+    all: pop_cont_split.
     all: pose proof (stacks_lookup _ _ _ Ea) as Hst; rewrite Est in Hst.
     all: try match goal with k : kont |- _ => destruct k end.
     all: split; intros dq; [specialize (I1 dq)|intros Hlen; pose proof (I2 dq) as I2'].
